@@ -48,7 +48,7 @@ ENGINE = "E1-SEQ"
 SHARDS = {"quick": 8, "thorough": 16}
 RULE = (
     "payloads {valid unary request with compressible pad, valid unary request with noisy pad, 2 KiB raw noise, 4 MiB zero bomb; "
-    "thorough: + valid 200 KiB request, valid stream-init request, 32 MiB bomb} x frames {plain; zstd one-shot (levels 1/19), "
+    "thorough: + valid 200 KiB request, valid stream-init request, 16 MiB bomb} x frames {plain; zstd one-shot (levels 1/19), "
     "size-less, multi-block, checksummed, lying-small/lying-large/honest rewritten content size, truncated by 1/2/3/4/8/half, "
     "header only, garbage, empty, two frames, frame+garbage; gzip levels 0/1/6/9, FEXTRA-padded, FNAME, sync/full flush, "
     "truncated by 1/4/8/half, bad CRC, bad ISIZE, garbage, empty, two members, member+garbage, member+zeros; cross-labelled} "
@@ -65,7 +65,7 @@ LEVEL_TEXT = (
 LEVEL_NOTE = (
     "Allocation is what tracemalloc sees (Python-level buffers incl. decoder output), not RSS. De-chunking is the WSGI "
     "gateway's job, so chunked requests are represented by the gateway behaviours listed in RULE. Payload sizes are "
-    "bounded (<= 32 MiB decoded)."
+    "bounded (<= 16 MiB decoded)."
 )
 ASSUMPTIONS = [
     "zstandard/zlib reference decoders are correct",
@@ -168,7 +168,7 @@ def payload(name: str) -> dict[str, Any]:
 def payload_names(ctx: Ctx) -> list[str]:
     if ctx.quick:
         return ["req-x", "req-noise", "noise-2k", "zeros-4"]
-    return ["req-x", "req-noise", "noise-2k", "zeros-4", "req-big", "req-init", "zeros-32"]
+    return ["req-x", "req-noise", "noise-2k", "zeros-4", "req-big", "req-init", "zeros-16"]
 
 
 # ------------------------------------------------------------------------------------------------
@@ -360,6 +360,11 @@ def model(w: bytes, cl: Any, token: str | None, cap: int | None, zstd_on: bool, 
             info["shape"] = "undecodable:" + ref.why.split(":")[0]
             if over(len(ref.data)) or over(declared):
                 refuse.add(413)
+            if tok == "zstd" and cap is not None and _zstd_declared_sum(seen) > cap:
+                # two faults at once: a later frame is cut short AND the frames' declared sizes together exceed
+                # the decoded cap; a decoder that refuses on the frame headers answers 413 before it can notice
+                # the truncation.  The statement fixes no precedence, so both statuses are admissible.
+                refuse.add(413)
             if ref.frames >= 1 and ref.why.startswith("error"):
                 # complete frame(s) then non-frame bytes: lenient pass-through of the frames is tolerated
                 info["shape"] = "trailing-garbage"
@@ -369,6 +374,32 @@ def model(w: bytes, cl: Any, token: str | None, cap: int | None, zstd_on: bool, 
         passthru = None
         decline = set()
     return {"refuse": refuse, "pass": passthru, "decline": decline, "info": info, "seen": seen, "over_wire": over_wire}
+
+
+def _zstd_declared_sum(body: bytes) -> int:
+    """Sum of the declared content sizes of the zstd frame headers that can be walked in *body*."""
+    import zstandard
+
+    total = 0
+    rest = body
+    for _ in range(16):
+        if not rest:
+            break
+        try:
+            size = zstandard.get_frame_parameters(rest).content_size
+        except Exception:
+            break
+        if size not in (-1, 2**64 - 1):
+            total += int(size)
+        try:
+            d = zstandard.ZstdDecompressor().decompressobj()
+            d.decompress(rest)
+            if not d.eof:
+                break
+            rest = d.unused_data
+        except Exception:
+            break
+    return total
 
 
 def result_ok(valid: str, body: bytes) -> bool:
@@ -539,6 +570,8 @@ def run_item(ctx: Ctx, it: dict[str, Any]) -> None:
     for cap in caps_for(pname, e, d):
         if ctx.quick:
             cfgs = ("default", "nozstd") if not bomb else ("default",)
+        elif pname == "zeros-16":
+            cfgs = ("default",)
         else:
             cfgs = ("default", "nozstd", "noresp")
         for cfg in cfgs:
@@ -547,7 +580,7 @@ def run_item(ctx: Ctx, it: dict[str, Any]) -> None:
             elif ctx.quick:
                 cls = ("honest", "absent", "E-1", "E+1") if cap in (None, BIG, e - 1, e, d) else ("honest",)
             else:
-                cls = ("honest", "absent", "E-1", "E//2", "E+1", "E+100") if not bomb else ("honest", "absent", "E+1")
+                cls = ("honest", "absent", "E-1", "E//2", "E+1", "E+100") if not bomb else (("honest", "absent", "E+1") if pname == "zeros-4" else ("honest", "E+1"))
             for cl in cls:
                 judge(ctx, {"payload": pname, "frame": fname, "cap": cap, "cfg": cfg, "cl": cl},
                       sample=(cfg == "default" and cl == "honest" and cap in (d, d - 1) and fname in ("zstd-sizeless", "gzip-l6") and pname == "req-x"))
